@@ -264,11 +264,16 @@ class RestartStageHandler(StabilizeHandler[RestartStage], _ControlHandler):
                 # dropped as stale and nothing would evaluate the re-opened
                 # workflow - it stayed RUNNING with an empty queue. Leave a
                 # CompleteWorkflow behind; it re-polls while the stage runs.
+                # One poll interval later, not at once: evaluated before the
+                # StartStage above it would see the workflow exactly as it was
+                # before the restart (another stage still TERMINAL / CANCELED),
+                # finish it again, and the StartStage would then be dropped.
                 txn.push_message(
                     CompleteWorkflow(
                         execution_type=message.execution_type,
                         execution_id=message.execution_id,
-                    )
+                    ),
+                    delay=self.retry_delay.total_seconds(),
                 )
 
             logger.info("Restarted stage %s (%s)", stage.name, stage.id)
